@@ -44,10 +44,27 @@ namespace random_utils {
   static thread_local std::uniform_real_distribution<> next_double(0.0, 1.0);
   static thread_local std::uniform_int_distribution<uint64_t> next_uint64(0, UINT64_MAX);
 
+#ifdef DATASKETCHES_VERIF
+  // verification hook (off by default): same call syntax and seed() as the engine below, but a
+  // monitor may install a script that supplies the bits, and the number of flips is counted
+  struct verif_coin {
+    std::independent_bits_engine<std::mt19937, 1, uint32_t> engine;
+    uint32_t (*script)(void*);
+    void* script_ctx;
+    uint64_t calls;
+    explicit verif_coin(uint32_t s): engine(s), script(nullptr), script_ctx(nullptr), calls(0) {}
+    uint32_t operator()() { ++calls; return script ? (script(script_ctx) & 1u) : static_cast<uint32_t>(engine()); }
+    void seed(uint32_t s) { engine.seed(s); }
+  };
+  static thread_local verif_coin
+    random_bit(static_cast<uint32_t>(std::chrono::system_clock::now().time_since_epoch().count()
+      + std::hash<std::thread::id>{}(std::this_thread::get_id())));
+#else
   // thread-safe random bit
   static thread_local std::independent_bits_engine<std::mt19937, 1, uint32_t>
     random_bit(static_cast<uint32_t>(std::chrono::system_clock::now().time_since_epoch().count()
       + std::hash<std::thread::id>{}(std::this_thread::get_id())));
+#endif
 
   inline void override_seed(uint64_t s) {
     rand.seed(s);
